@@ -114,6 +114,18 @@ func (env *Env) lookupIdent(name string) (Value, bool) {
 		return env.e.ghostGlobal(env.st, name), true
 	}
 	if env.fr != nil {
+		// a captured variable lives in its cell: read the cell, not an earlier
+		// load of it that a debug reference may point to
+		for _, fv := range env.fr.Fn.FreeVars {
+			if fv.Name() == name {
+				if v, ok := env.fr.Vals[fv]; ok {
+					if p, ok := v.(VPtr); ok && p.Loc != nil {
+						return env.e.load(env.st, p.Loc, p.Elem), true
+					}
+					return v, true
+				}
+			}
+		}
 		// phis of the current block carry the source variable name
 		if env.fr.Block != nil && !env.isOld {
 			for _, in := range env.fr.Block.Instrs {
